@@ -25,7 +25,7 @@ theorem stage_gen (f : α → Bool × Option ε) :
 /-- the regenerated loop body calls the user-supplied function exactly once per element, whatever the outcome -/
 theorem calls_gen (f : α → Bool × Option ε) (s : Unit) (a : α) :
     callsOf (Golem.Gen.Pipe.Partition.body f a) s = 1 := by
-  simp [Golem.Gen.Pipe.Partition.body]
+  cases h : (f a).2 <;> cases h2 : (f a).1 <;> simp [Golem.Gen.Pipe.Partition.body, h, h2]
 
 /-- `make`, `go`, `close`: capacities, worker layout, close order -/
 theorem cfg_gen : Golem.Gen.Pipe.Partition.cfg = StageCfg.pipePartition := rfl
